@@ -170,8 +170,14 @@ let gen_depths r n maxd =
   go 0 0 []
 
 (* [cars]: which carriers may be drawn; [invalid]: per-mille share of non-DIE targets *)
-let gen_forest r ~ver ~nunits ~maxn ~cars ~nesting ~invalid ~maxsites : gforest =
-  let sizes = List.init nunits (fun _ -> rand_int r (maxn + 1)) in
+(* split a total number of entries over nunits units *)
+let split_sizes r total nunits =
+  let a = Array.make nunits 0 in
+  for _ = 1 to total do let j = rand_int r nunits in a.(j) <- a.(j) + 1 done;
+  Array.to_list a
+
+let gen_forest r ~ver ~sizes ~cars ~nesting ~invalid ~maxsites : gforest =
+  let nunits = List.length sizes in
   let base = ref 0 in
   let starts = List.map (fun n -> let s = !base in base := s + n; s) sizes in
   let total = !base in
@@ -262,22 +268,21 @@ let () =
               List.iter (fun req -> emit_case emit stream ~spec:false 5 4 8 [ u ] req) (subsets 3))
               [ [ t_struct; t_struct; t_struct ]; [ t_ns; t_var; t_struct ]; [ t_struct; t_member; t_typedef ] ]
           done done) [ (0, 0); (1, 0); (2, 6); (3, 7) ]) (shapes 3);
-      (* random forests *)
+      (* random forests: every forest of at most 10 entries is run with ALL 2^n required subsets *)
       let r = mk_rng (seed * 7919 + 19) in
+      let totals = [| 1; 2; 2; 3; 3; 3; 4; 4; 4; 4; 5; 5; 5; 6; 6; 6; 7; 7; 8; 9; 10; 12; 14; 17; 22; 30 |] in
       let made = ref 0 in
       while !made < n do
         let (ver, fmt, asz) = pick r versions in
         let nunits = 1 + rand_int r 3 in
-        let small = rand_int r 3 <> 0 in
-        let f = gen_forest r ~ver ~nunits ~maxn:(if small then 4 else 14) ~cars:cars_covered ~nesting:false
+        let total = pick r totals in
+        let f = gen_forest r ~ver ~sizes:(split_sizes r total nunits) ~cars:cars_covered ~nesting:false
             ~invalid:(if rand_int r 4 = 0 then 120 else 0) ~maxsites:3 in
         let cnt = count f in
-        if cnt > 0 then begin
-          if cnt <= 10 && rand_int r 4 = 0 then
-            List.iter (fun req -> emit_case emit stream ~spec:false ver fmt asz f req; incr made) (subsets cnt)
-          else
-            for _ = 1 to 6 do emit_case emit stream ~spec:false ver fmt asz f (random_subset r cnt); incr made done
-        end
+        if cnt <= 10 then
+          List.iter (fun req -> emit_case emit stream ~spec:false ver fmt asz f req; incr made) (subsets cnt)
+        else
+          for _ = 1 to 8 do emit_case emit stream ~spec:false ver fmt asz f (random_subset r cnt); incr made done
       done);
   register "c19.sites"
     ~doc:"forests with every reference carrier the converter resolves (also DW_OP_implicit_pointer, DW_OP_GNU_variable_value, operations inside DW_OP_entry_value, location-list entries skipped by LocListIter), valid targets only; expected = closure over ALL references (the property)"
@@ -297,18 +302,18 @@ let () =
           done
         done) [ (4, 4, 8); (5, 4, 8); (5, 8, 8); (2, 4, 4) ];
       let r = mk_rng (seed * 104729 + 23) in
+      let totals = [| 2; 2; 3; 3; 3; 4; 4; 4; 5; 5; 6; 6; 7; 8; 9; 10; 12; 16; 20 |] in
       let made = ref 0 in
       while !made < n do
         let (ver, fmt, asz) = pick r versions in
         let nunits = 1 + rand_int r 2 in
-        let f = gen_forest r ~ver ~nunits ~maxn:(if rand_bool r then 4 else 10) ~cars:cars_all ~nesting:true ~invalid:0 ~maxsites:2 in
+        let total = pick r totals in
+        let f = gen_forest r ~ver ~sizes:(split_sizes r total nunits) ~cars:cars_all ~nesting:true ~invalid:0 ~maxsites:2 in
         let cnt = count f in
-        if cnt > 0 then begin
-          if cnt <= 8 && rand_int r 4 = 0 then
-            List.iter (fun req -> emit_case emit stream ~spec:true ver fmt asz f req; incr made) (subsets cnt)
-          else
-            for _ = 1 to 6 do emit_case emit stream ~spec:true ver fmt asz f (random_subset r cnt); incr made done
-        end
+        if cnt <= 10 then
+          List.iter (fun req -> emit_case emit stream ~spec:true ver fmt asz f req; incr made) (subsets cnt)
+        else
+          for _ = 1 to 8 do emit_case emit stream ~spec:true ver fmt asz f (random_subset r cnt); incr made done
       done);
   register "c19.tags"
     ~doc:"has_die_back_edge: every tag 0x01..0x50 and every vendor tag of constants.rs x parent tag in {structure_type, namespace, subprogram, lexical_block} x DW_AT_declaration x (parent required | child required); then random 16-bit tags"
@@ -342,7 +347,8 @@ let () =
       let made = ref 0 in
       while !made < n do
         let (ver, fmt, asz) = pick r versions in
-        let f = gen_forest r ~ver ~nunits:(1 + rand_int r 3) ~maxn:40 ~cars:cars_covered ~nesting:false ~invalid:0 ~maxsites:4 in
+        let nunits = 1 + rand_int r 3 in
+        let f = gen_forest r ~ver ~sizes:(List.init nunits (fun _ -> rand_int r 41)) ~cars:cars_covered ~nesting:false ~invalid:0 ~maxsites:4 in
         let cnt = count f in
         if cnt > 0 && cnt < 250 then
           for _ = 1 to 4 do emit_case emit stream ~spec:false ver fmt asz f (random_subset r cnt); incr made done
